@@ -476,6 +476,29 @@ def rule_r9(ctx) -> List[R.Inst]:
     return map_override_insts(ctx, "C12.R9", ops=MAP_OPS - {"stack"})
 
 
+def rule_r10(ctx) -> List[R.Inst]:
+    """the stacker is a snapshot: __init__ concatenates COPIES of the lists' frames and _update writes every column of every
+    stacked list back from that snapshot.  Whatever changed the lists in between — a second stacker, a direct list edit — is
+    reverted by the next write through this stacker, and an in-place edit of a column obtained from the getter reaches the lists
+    only with the next unrelated write"""
+    M = ctx.M
+    rid = "C12.R10"
+    ini = M.fn(ST + ".__init__")
+    upd = M.fn(ST + "._update")
+    file = M.mods[upd.mod].rel
+    snapshot = any(isinstance(n, ast.Call) and unparse(n.func).endswith("concat") for n in ast.walk(ini.node))
+    whole = any(isinstance(n, ast.Assign) and isinstance(n.targets[0], ast.Attribute) and n.targets[0].attr in ("df", "_df") and
+                "columns" in unparse(n.value) for n in ast.walk(upd.node))
+    key_only = any(isinstance(a, ast.arg) and a.arg in ("key", "keys", "columns", "cols") for a in upd.node.args.args)
+    if snapshot and whole and not key_only:
+        return [R.viol(rid, "snapshot-write-back", file, upd.node.lineno,
+                       "_update writes ALL columns of ALL stacked lists from the stacker's private copy, not just the assigned column: with two "
+                       "live stackers (s_hits.offset += 1000; s_all.column += 1) the second write restores the old offsets, and a direct "
+                       "edit of a list between two stack operations is reverted the same way — 'changes exactly the selected columns and "
+                       "nothing else' fails for such sequences", construct="Stacker: snapshot in __init__, whole-frame write-back in _update")]
+    return [R.ok(rid, "snapshot-write-back", file, upd.node.lineno, idiom="write-back limited to the assigned column(s) / live frames")]
+
+
 def rule_dep(ctx):
     """obligations inherited from shared code reached through the call graph (sa/props/deps.py)"""
     from .deps import dep_insts
@@ -492,6 +515,7 @@ SPECS = [
     RuleSpec("C12.R7", rule_r7, 1, "A3", "write-back writes the stacked lists' frames and nothing else"),
     RuleSpec("C12.R8", rule_r8, 1, "A8", "views of the stacked frame kept on the stacker stay valid: the frame is not rebound while such a view exists"),
     RuleSpec("C12.R9", rule_r9, 2, "M0", "chart operations re-defined below Map / MapSet forward to the decided definition"),
+    RuleSpec("C12.R10", rule_r10, 1, "A3", "write-back scope: a stack edit writes the edited column, not a stale snapshot of everything"),
     RuleSpec("C12.D", rule_dep, 1, "M0", "rules of the shared code (timing engine, list classes, stacker) that the operations of this property reach"),
 ]
 
